@@ -380,7 +380,15 @@ struct SeqStats {
 	module_checks: u64,
 }
 
-fn build_items(items: &[Item], reg: &mut u32, log: &mut Vec<String>) -> Result<(RpcModule<()>, Model), (String, String)> {
+/// Build the fresh module that a `Merge` op merges. Its registrations are checked like any other (Result and state),
+/// so a defect that shows while building is reported under the registering operation, not as a merge anomaly.
+async fn build_items(
+	items: &[Item],
+	reg: &mut u32,
+	log: &mut Vec<String>,
+	probe: &mut Probe,
+	probe_names: &[&'static str],
+) -> Result<(RpcModule<()>, Model), (String, String)> {
 	let mut other = RpcModule::new(());
 	let mut om = Model::new();
 	for it in items {
@@ -392,8 +400,29 @@ fn build_items(items: &[Item], reg: &mut u32, log: &mut Vec<String>) -> Result<(
 		if let Some(bad) = result_anomaly(&res) {
 			return Err(bad);
 		}
+		if let Some(mm) = verify_module(probe, 0, &other, &om, probe_names).await {
+			let (sig, detail) = state_anomaly(&mm, 0, res.api, res.cond, res.expected_ok, true);
+			return Err((sig, format!("while building the module to merge: {detail}")));
+		}
 	}
 	Ok((other, om))
+}
+
+/// Signature + detail for a module that disagrees with its model after an operation on module `target`.
+fn state_anomaly(mm: &Mismatch, target: usize, api: &str, cond: &str, expected_ok: Option<bool>, mutating: bool) -> (String, String) {
+	let kind = if mm.module != target {
+		"other-module-changed"
+	} else if expected_ok == Some(false) {
+		"failed-op-changed-module"
+	} else if !mutating {
+		"read-only-op-changed-module"
+	} else {
+		"wrong-state-after-success"
+	};
+	(
+		format!("{kind}/{api}/{cond}/{}", mm.facet),
+		format!("after {api} [{cond}] module {}{}: {}", mm.module, if mm.module == target { " (operated on)" } else { "" }, mm.detail),
+	)
 }
 
 /// Signature + detail if the returned Result disagrees with the statement.
@@ -451,7 +480,7 @@ async fn run_sequence(ops: &[Op], probe_names: &[&'static str], ev: &mut Evidenc
 			}
 			Op::Merge { on, items } => {
 				target = *on as usize % n;
-				match build_items(items, &mut reg, &mut log) {
+				match build_items(items, &mut reg, &mut log, &mut probe, probe_names).await {
 					Ok((other, om)) => Some(do_merge(&mut mods[target], &mut models[target], other, &om, "merge")),
 					Err(bad) => {
 						anomaly = Some(bad);
@@ -548,19 +577,8 @@ async fn run_sequence(ops: &[Op], probe_names: &[&'static str], ev: &mut Evidenc
 			for i in 0..mods.len() {
 				st.module_checks += 1;
 				if let Some(mm) = verify_module(&mut probe, i, &mods[i], &models[i], probe_names).await {
-					let kind = if mm.module != target {
-						"other-module-changed"
-					} else if expected_ok == Some(false) {
-						"failed-op-changed-module"
-					} else if !mutating {
-						"read-only-op-changed-module"
-					} else {
-						"wrong-state-after-success"
-					};
-					anomaly = Some((
-						format!("{kind}/{api}/{cond}/{}", mm.facet),
-						format!("after step {step} ({api}, {cond}) module {}{}: {}", mm.module, if mm.module == target { " (operated on)" } else { "" }, mm.detail),
-					));
+					let (sig, detail) = state_anomaly(&mm, target, api, cond, expected_ok, mutating);
+					anomaly = Some((sig, format!("step {step}: {detail}")));
 					break;
 				}
 			}
@@ -870,9 +888,24 @@ fn main() {
 			}
 			None => println!("replay: the module agreed with the reference model after every operation"),
 		}
-		// a replay is a single case; make it count as observed
-		ev.nontrivial(&"replay-a");
-		ev.nontrivial(&"replay-b");
+		violations.extend(v);
+		// Neighbours of the stored case (every proper prefix, every one-operation deletion) are run as further cases,
+		// so that the evidence of a replay is measured on more than one history.
+		let mut neighbours: Vec<Vec<Op>> = (1..ops.len()).map(|l| ops[..l].to_vec()).collect();
+		for i in 0..ops.len() {
+			let mut o = ops.clone();
+			o.remove(i);
+			if !o.is_empty() {
+				neighbours.push(o);
+			}
+		}
+		let mut v: Vec<Violation> = Vec::new();
+		for nb in &neighbours {
+			if let Some(x) = block_on_virtual(run_sequence(nb, &names, &mut ev)) {
+				println!("neighbour case ({} ops) also violates: {}", nb.len(), x.signature);
+				v.push(x);
+			}
+		}
 		violations.extend(v);
 		finish(&ctx, ev, violations, None);
 	}
